@@ -11,6 +11,7 @@ import (
 	"sort"
 	"strings"
 	"sync"
+	"sync/atomic"
 	"time"
 
 	plugin "github.com/hashicorp/go-plugin"
@@ -77,9 +78,10 @@ func pingConn(conn *grpc.ClientConn, timeout time.Duration) (string, error) {
 
 // runMuxLiveness: on one multiplexed pair, a history of unmatched / late peers on id 70.., then a fresh matched pair
 // (accept first) in the same direction; role "server": the plugin accepts and the host dials, "client": the reverse.
-//   kind "dial-unmatched":        Dial(x)+call with nobody accepting                       -> error within the window
-//   kind "dial-then-late-accept": the same, and AFTER the dial has given up the other side accepts x (nobody dials again)
-//   kind "accept-unmatched":      Accept(x) with nobody dialling
+//
+//	kind "dial-unmatched":        Dial(x)+call with nobody accepting                       -> error within the window
+//	kind "dial-then-late-accept": the same, and AFTER the dial has given up the other side accepts x (nobody dials again)
+//	kind "accept-unmatched":      Accept(x) with nobody dialling
 func runMuxLiveness(role, kind string) (impl, pred string) {
 	p, err := newGrpcPair(true)
 	if err != nil {
@@ -147,6 +149,117 @@ func runMuxLiveness(role, kind string) (impl, pred string) {
 		pred = "FAIL:main-connection-dead"
 	}
 	return impl, pred
+}
+
+// runGrpcBurst: n distinct ids accepted at the same instant (n conn-infos in flight on the broker stream at once), all
+// dialled together a little later; every connection must be answered by its own id's server.
+func runGrpcBurst(n int, dir int) (impl, pred string) {
+	p, err := newGrpcPair(false)
+	if err != nil {
+		return "setup-error", "FAIL:setup"
+	}
+	defer p.close()
+	acceptor, dialler := p.plug, p.host
+	if dir == 1 {
+		acceptor, dialler = p.host, p.plug
+	}
+	gate := make(chan struct{})
+	for i := 0; i < n; i++ {
+		id := uint32(5000 + i)
+		go func() {
+			defer func() { recover() }()
+			<-gate
+			servePingPong(acceptor, id)
+		}()
+	}
+	close(gate)
+	time.Sleep(400 * time.Millisecond)
+	var okN, wrong, failed int32
+	var wg sync.WaitGroup
+	for i := 0; i < n; i++ {
+		wg.Add(1)
+		id := uint32(5000 + i)
+		go func() {
+			defer wg.Done()
+			defer func() {
+				if recover() != nil {
+					atomic.AddInt32(&failed, 1)
+				}
+			}()
+			ans, conn, err := pingKeep(dialler, id, 8*time.Second)
+			if conn != nil {
+				defer conn.Close()
+			}
+			switch {
+			case err != nil || ans == "":
+				atomic.AddInt32(&failed, 1)
+			case ans != fmt.Sprint(id):
+				atomic.AddInt32(&wrong, 1)
+			default:
+				atomic.AddInt32(&okN, 1)
+			}
+		}()
+	}
+	wg.Wait()
+	impl = fmt.Sprintf("ok=%d wrong=%d failed=%d", okN, wrong, failed)
+	switch {
+	case wrong > 0:
+		return impl, "FAIL:burst-misrouted"
+	case failed > 0:
+		return impl, "FAIL:burst-first-call-failed"
+	}
+	return impl, "ok"
+}
+
+// runMuxRedial: a long-lived listener on one id is dialled, and dialled again `gap` later (longer than every pending
+// window): the second connection must work like the first.
+func runMuxRedial(role string, gap time.Duration) (impl, pred string) {
+	p, err := newGrpcPair(true)
+	if err != nil {
+		return "setup-error", "FAIL:setup"
+	}
+	defer p.close()
+	acceptor, dialler := p.plug, p.host
+	if role == "client" {
+		acceptor, dialler = p.host, p.plug
+	}
+	go func() {
+		defer func() { recover() }()
+		servePingPong(acceptor, 41)
+	}()
+	time.Sleep(150 * time.Millisecond)
+	res := func(ans string, err error) string {
+		if err != nil || ans != "41" {
+			return "failed"
+		}
+		return "ok"
+	}
+	a1, c1, e1 := pingKeep(dialler, 41, 8*time.Second)
+	if c1 != nil {
+		defer c1.Close()
+	}
+	time.Sleep(gap)
+	a2, c2, e2 := pingKeep(dialler, 41, 8*time.Second)
+	if c2 != nil {
+		defer c2.Close()
+	}
+	first, second := res(a1, e1), res(a2, e2)
+	still := "ok"
+	if c1 != nil {
+		if ans, err := pingConn(c1, 3*time.Second); err != nil || ans != "41" {
+			still = "broken"
+		}
+	}
+	impl = fmt.Sprintf("first=%s second=%s earlier=%s", first, second, still)
+	switch {
+	case first != "ok":
+		return impl, "FAIL:first-dial-failed"
+	case second != "ok":
+		return impl, "FAIL:second-dial-of-a-live-listener-failed"
+	case still != "ok":
+		return impl, "FAIL:earlier-connection-broken"
+	}
+	return impl, "ok"
 }
 
 // ---------------------------------------------------------------- C07: timed histories, no multiplexing
@@ -326,6 +439,10 @@ func init() {
 		parallel(len(hs), 32, func(i int) { results[i], errs[i] = runGrpcHistory(hs[i]) })
 		for i, h := range hs {
 			emitGrpcHistory(o, h, results[i], errs[i])
+		}
+		for dir := 0; dir < 2; dir++ {
+			impl, pred := runGrpcBurst(120, dir)
+			o.emit(fmt.Sprintf("!C07.burst n=120 dir=%d", dir), impl, pred)
 		}
 		o.note("grpc histories=%d", len(hs))
 	})
@@ -562,6 +679,13 @@ func init() {
 			for i, c := range cases {
 				o.emit(c.line(), impls[i], preds[i])
 			}
+		}
+		// a long-lived listener dialled twice, the second time after every pending window has passed
+		type rd struct{ role, impl, pred string }
+		rds := []*rd{{role: "server"}, {role: "client"}}
+		parallel(len(rds), len(rds), func(i int) { rds[i].impl, rds[i].pred = runMuxRedial(rds[i].role, 5600*time.Millisecond) })
+		for _, x := range rds {
+			o.emit("!C08.redial role="+x.role+" gap=5600", x.impl, x.pred)
 		}
 	})
 }
